@@ -31,6 +31,10 @@ type GitSpec struct {
 	States     map[string]string `json:"states"`      // rego file -> clean | modified | staged | untracked | ignored (default clean)
 	IgnoreDirs []string          `json:"ignore_dirs"` // lines of the .gitignore of every repository, e.g. "ign/"
 	GitFile    string            `json:"git_file"`    // "" = none; directory ("." = workspace root) in which .git is a regular file (as in a linked work tree)
+	// Submodules: repository directories (also listed in RepoDirs) that are registered as a submodule of the repository
+	// around them (git submodule add): "dir" = the submodule keeps its .git directory, "file" = it is absorbed into the
+	// superproject (git submodule absorbgitdirs: .git is a file, the layout a clone with submodules has)
+	Submodules map[string]string `json:"submodules,omitempty"`
 }
 
 // WS describes a workspace and one invocation.
@@ -42,14 +46,17 @@ type WS struct {
 	RegalDirs []string `json:"regal_dirs"` // directories that get an (empty) .regal directory; "" = workspace root
 	CfgRoots  []string `json:"cfg_roots"`  // project.roots of <root>/.regal/config.yaml (only with "" in RegalDirs)
 	Manifests []string `json:"manifests"`  // directories that get a .manifest file
-	Args      []string `json:"args"`       // path arguments, relative to the workspace root ("" = the root itself)
-	AbsArgs   bool     `json:"abs_args"`
-	Cwd       string   `json:"cwd"`    // working directory relative to the workspace root
-	Ignore    string   `json:"ignore"` // --ignore-files pattern ("" = none)
-	Policy    string   `json:"policy"` // error | rename
-	DryRun    bool     `json:"dry_run"`
-	NoForce   bool     `json:"no_force"` // C14: run without --force
-	Git       *GitSpec `json:"git,omitempty"`
+	// Extra: further files (path -> content) written before the repositories are committed, e.g. a .regal.yaml or
+	// a .regal/config.yaml with project.roots in a sub-directory
+	Extra   map[string]string `json:"extra,omitempty"`
+	Args    []string          `json:"args"` // path arguments, relative to the workspace root ("" = the root itself)
+	AbsArgs bool              `json:"abs_args"`
+	Cwd     string            `json:"cwd"`    // working directory relative to the workspace root
+	Ignore  string            `json:"ignore"` // --ignore-files pattern ("" = none)
+	Policy  string            `json:"policy"` // error | rename
+	DryRun  bool              `json:"dry_run"`
+	NoForce bool              `json:"no_force"` // C14: run without --force
+	Git     *GitSpec          `json:"git,omitempty"`
 	// Via: how the invocation reaches the workspace.  "" = by its real path.  Otherwise the workspace is materialised
 	// next to a symbolic link, and the working directory and every argument are spelled through that link (as a
 	// shell that was cd'ed through the link would: PWD is the spelled path):
@@ -189,6 +196,14 @@ func Materialise(ws *WS, root string) {
 	for _, d := range ws.Manifests {
 		write(filepath.Join(d, ".manifest"), "{}\n")
 	}
+	extra := make([]string, 0, len(ws.Extra))
+	for e := range ws.Extra {
+		extra = append(extra, e)
+	}
+	sort.Strings(extra)
+	for _, e := range extra {
+		write(e, ws.Extra[e])
+	}
 	if ws.Git == nil {
 		for _, f := range ws.Files {
 			write(f.Path, Content(f))
@@ -225,6 +240,35 @@ func Materialise(ws *WS, root string) {
 		git(rp, "init", "-q", ".")
 		git(rp, "add", "-A")
 		git(rp, "commit", "-q", "--allow-empty", "-m", "init")
+	}
+	// submodules, innermost first: registered in (and committed to) the repository around them
+	subs := make([]string, 0, len(ws.Git.Submodules))
+	for sd := range ws.Git.Submodules {
+		subs = append(subs, sd)
+	}
+	sort.Slice(subs, func(i, j int) bool {
+		if len(subs[i]) != len(subs[j]) {
+			return len(subs[i]) > len(subs[j])
+		}
+		return subs[i] < subs[j]
+	})
+	for _, sd := range subs {
+		outer, ok := "", false
+		for _, d := range ws.Git.RepoDirs {
+			if d != sd && under(d, sd) && (!ok || len(d) > len(outer)) {
+				outer, ok = d, true
+			}
+		}
+		if !ok {
+			panic("submodule without a repository around it: " + sd)
+		}
+		op := filepath.Join(root, outer)
+		rel, _ := filepath.Rel(op, filepath.Join(root, sd))
+		git(op, "-c", "protocol.file.allow=always", "submodule", "--quiet", "add", "./"+rel, rel)
+		git(op, "commit", "-q", "-m", "submodule "+rel)
+		if ws.Git.Submodules[sd] == "file" {
+			git(op, "submodule", "--quiet", "absorbgitdirs", rel)
+		}
 	}
 	for _, f := range ws.Files {
 		switch state(f) {
